@@ -134,6 +134,7 @@ class C17(Prop):
                    "cover labels are consistent (every edge of a motif carries that motif's label)"]
     model_scope = "modelled: message_passing.py in full on parsed labels; message_passing_mixin.py is checked by the harness, not modelled in Lean"
     budgets = {"quick": 24, "thorough": 400}
+    recheck = {"quick": 3, "thorough": 10}
     search_budget = {"quick": 80, "thorough": 500}
 
     def gen(self, rng, i, tier):
